@@ -221,6 +221,10 @@ namespace c15
   template<typename T_, int n_> struct ForcedCaps<FamD1<T_>, Shape::Simplex<n_>>
   { static constexpr SpaceTags value = SpaceTags::value | SpaceTags::grad | SpaceTags::ref_value | SpaceTags::ref_grad; };
 
+  // elements whose node functionals need derivatives of the interpolated function
+  template<typename Space_> struct NeedsDeriv { static constexpr bool value = false; };
+  template<typename T_> struct NeedsDeriv<FamHE<T_>> { static constexpr bool value = true; };
+
   template<typename V_> inline void pv(std::ostream& o, const V_& v, int n) { for(int i = 0; i < n; ++i) o << " " << Q(v[i]); }
 
   // ---------------------------------------------------------------------------------------------------------
@@ -363,6 +367,76 @@ namespace c15
       }
     }
 
+
+    // ---------------------------------------------------------------------------------------------------
+    // nfdual <cell>  ->  M nloc { N_i(phi_j) : i = 0..nloc-1 }*nloc  (row j)
+    // The REAL node functionals applied to the REAL basis functions: basis function j of the cell (the space evaluator
+    // evaluated at arbitrary real points: non-parametric evaluators read the image point only, parametric ones on
+    // affine cells get the exact reference point J^-1 (x - T(0))) is interpolated with Assembly::Interpolator (node
+    // functionals of every entity + DofAssignment); the coefficients at the cell's DOFs (DofMapping) are N_i(phi_j).
+    // ---------------------------------------------------------------------------------------------------
+    struct BasisFn : public Analytic::Function
+    {
+      static constexpr int domain_dim = dim;
+      typedef Analytic::Image::Scalar ImageType;
+      static constexpr bool can_value = true;
+      static constexpr bool can_grad = false;
+      static constexpr bool can_hess = false;
+      const SpaceEvaluator* se; const TrafoEvaluator* te; int j;
+      typedef typename SpaceEvaluator::template ConfigTraits<SpaceTags::value> VCfg;
+      typedef typename TrafoEvaluator::template ConfigTraits<VCfg::trafo_config | TrafoTags::img_point | TrafoTags::jac_inv>::EvalDataType VTD;
+      VTD lin; // trafo data at the reference origin: img_point = T(0), jac_inv = J(0)^-1
+
+      template<typename Traits_>
+      class Evaluator : public Analytic::Function::Evaluator<Traits_>
+      {
+      public:
+        typedef typename Traits_::PointType PointType;
+        typedef typename Traits_::ValueType ValueType;
+        const BasisFn& f;
+        explicit Evaluator(const BasisFn& ff) : f(ff) {}
+        ValueType value(const PointType& p)
+        {
+          VTD td = f.lin;
+          for(int a = 0; a < dim; ++a) td.img_point[a] = p[a];
+          for(int a = 0; a < dim; ++a)
+          {
+            Q s(0);
+            for(int b = 0; b < dim; ++b) s += f.lin.jac_inv[a][b] * (p[b] - f.lin.img_point[b]);
+            td.dom_point[a] = s;
+          }
+          typename VCfg::EvalDataType sd;
+          (*f.se)(sd, td);
+          return sd.phi[f.j].value;
+        }
+      };
+    };
+
+    static void nfdual(CtxType& cx, Cur& c, std::ostream& o)
+    {
+      if constexpr(!SpaceType::have_node_func || NeedsDeriv<SpaceType>::value) { o << "UNSUPPORTED"; return; } else {
+      SpaceType space(*cx.trafo);
+      Index cell = Index(c.idx());
+      TrafoEvaluator te(*cx.trafo); SpaceEvaluator se(space);
+      te.prepare(cell); se.prepare(te);
+      BasisFn fn; fn.se = &se; fn.te = &te;
+      DomPoint zero; for(int k = 0; k < dim; ++k) zero[k] = Q(0);
+      te(fn.lin, zero);
+      typename SpaceType::DofMappingType dm(space);
+      dm.prepare(cell);
+      int nl = se.get_num_local_dofs();
+      o << "M " << nl;
+      for(int j = 0; j < nl; ++j)
+      {
+        fn.j = j;
+        LAFEM::DenseVector<Q, Index> vec;
+        Assembly::Interpolator::project(vec, fn, space);
+        for(int i = 0; i < nl; ++i) o << " " << Q(vec(dm.get_index(i)));
+      }
+      dm.finish(); se.finish(); te.finish();
+      }
+    }
+
     // evpts <cell> <npts> <pts>  ->  P nloc hasgrad hashess { {value grad hess}*nloc }*npts : all local basis functions
     // in real coordinates at several reference points of one cell (used at the cell's vertices: the oracle applies the
     // definition of the derivative node functionals to these numbers)
@@ -495,6 +569,7 @@ namespace c15
       if(op == "ev") ev(cx, c, o);
       else if(op == "evcfg") evcfg(cx, c, o);
       else if(op == "evpts") evpts(cx, c, o);
+      else if(op == "nfdual") nfdual(cx, c, o);
       else if(op == "caps") capsop(cx, c, o);
       else if(op == "ref") ref(cx, c, o);
       else if(op == "dofs") dofs(cx, c, o);
